@@ -111,6 +111,17 @@ def check_decl(dc, st, tier, only=None):
         seen.add(key)
         check_value(dc, st, r[1].pv, 'kw')
         check_value(dc, st, r[1].pv, 'attr')
+        if 'seq' in dc.feats:
+            check_value(dc, st, r[1].pv, 'inplace')
+            # a packet constructed AFTER another one filled its lists in place starts from the declared defaults
+            d = refsem.defaults(dc.P)
+            try:
+                got = ir.extract(dc.K(), dc.P, dc.pkts)
+            except Exception as e:
+                got = e
+            if got != d:
+                st.violate('defaults polluted by in-place filling', 'after %s was filled in place a fresh %s() holds %r, declared defaults %r | %s' % (
+                    ir.value_src(r[1].pv), dc.P['name'], got, d, dc.src.replace('\n', '; ')), dc.case(pv=r[1].pv.tojson(), how='inplace'))
     dflt = refsem.defaults(dc.P)
     if repr(dflt) not in seen:
         check_value(dc, st, dflt, 'kw')
